@@ -30,8 +30,7 @@ type c07Case struct {
 	Odd int `json:"odd,omitempty"`
 }
 
-var c07OddStr = []string{"", "'['", "'*'", "'a{2,1}'", "''"}
-var c07OddInt = []string{"", "-1", "2147483647", "0", "-1"}
+
 
 var c07Empties = []string{"{}", "Patient.photo", "%none", "%nilcoll"}
 
